@@ -47,7 +47,10 @@ class Hand:
         names = []
         while len(names) < nv:
             n = r.choice('abcdfghjklmopqrstuvwyzABCDXYZ_') + ''.join(r.choice('abcxyz0123456789_.#$') for _ in range(r.choice([0, 0, 1, 2, 4])))
-            if n.lower() in ALLKW or n.lower().startswith(('inf', 'nan')) or n in names:
+            if names and r.random() < .4:           # prefix families: x1 / x10 / x11, cap / cap_max
+                base = r.choice(names)
+                n = base + r.choice('0123456789_abc') if r.random() < .6 or len(base) < 2 else base[:r.randint(1, len(base) - 1)]
+            if n.lower() in ALLKW or n.lower().startswith(('inf', 'nan')) or n in names or n[0] in 'eEiInNxX.0123456789':
                 continue
             names.append(n)
         self.names = names
